@@ -63,6 +63,16 @@ typedef std::chrono::milliseconds ms;
 
 static void pass(Loop *loop) { loop->runNext([] {}); loop->runLoop(Loop::Mode::kOnce); }
 
+// A regression may make the loop fire for ever inside one pass (a re-arm that never gets past 'now') or never come back: neither may hang the check.
+static long g_cb_count = 0;
+static void cb_guard(long limit, const std::string &viol) {
+  if (++g_cb_count <= limit) return;
+  std::string sg = viol.empty() ? std::string("endless-callbacks-in-one-pass") : viol.substr(0, viol.find(' '));
+  printf("\n@VIOL sig=%s :: %s  [more than %ld callbacks in one run: the loop does not stop firing; this process gives up]\n@CAP C02: a process gave up after an endless callback storm\n", sg.c_str(), hx::g_cur, limit); fflush(stdout); _exit(0);
+}
+static void on_alarm(int) { hx::emit_crash("no-progress-for-300s-in-one-run"); _exit(1); }
+struct RunGuard { RunGuard() { g_cb_count = 0; signal(SIGALRM, on_alarm); alarm(300); } ~RunGuard() { alarm(0); } };
+
 // ---------------------------------------------------------------------------------------------
 // Private members are read ONLY for the state key (never by the oracle) and through SFINAE probes: if a refactoring renames one,
 // the harness still builds, says "@INFO missing-member ..." and the key falls back to the op history (no merging at all).
@@ -176,7 +186,7 @@ static int timer_mode(const std::string &eng, size_t depth, int config) {
     else if (C.pairs && h.size() == 1 && basic_script(h[0], NT)) for (int t = h[0].t + 1; t < NT; t++) scripts_of(t, true, m);     // pairs: on two different timers, order irrelevant
     return m; };
   ex.run = [&](const std::vector<Op> &h, std::string &viol) {
-    Virt virt;
+    Virt virt; RunGuard guard;
     clock_reset(); Loop *loop = Loop::New(eng); auto cl = static_cast<CommonLoop *>(loop);
     if (!C.pooled) depool(cl);
     TimerEvent *tm[4]; bool alive[4], inited[4]; int act[5] = {0, 0, 0, 0, 0}, oth[5] = {0, 0, 0, 0, 0}, slow[5] = {0, 0, 0, 0, 0}, rk[5] = {0, 0, 0, 0, 0}; long long IV[4]; bool PER[4]; long fires[4] = {0, 0, 0, 0};
@@ -210,6 +220,7 @@ static int timer_mode(const std::string &eng, size_t depth, int config) {
             loop->exitLoop(ms(2)); exit_dl = vnow + 2; } break;
       } };
     for (int t = 0; t < NT; t++) tm[t]->setCallback([&, t] {
+      cb_guard(100000, viol);
       if (!viol.empty()) return;
       if (!alive[t]) { viol = "callback-on-destroyed-timer"; return; }
       if (!md[t].en) { viol = "callback-on-disabled-timer"; return; }
@@ -257,8 +268,9 @@ static int timer_mode(const std::string &eng, size_t depth, int config) {
     { char b[96]; snprintf(b, 96, "x%lld.%d.%d|n%d.%d|u%d|", exit_dl >= 0 ? exit_dl - vnow : -1, (int)exit_used, (int)(VF_GET(sp_exit_timer_, *cl, (TimerEvent *)nullptr) != nullptr), act[NT], oth[NT], vsub); c += b; }
     c += heap_key(cl);
     if (vf_any_missing()) { c += "!"; for (auto &o : h) c += ex.show(o); }      // a probed member is gone: do not merge states the key can no longer tell apart
-    for (int t = 0; t < NT; t++) if (alive[t]) delete tm[t];
-    pass(loop); delete loop; return c; };
+    // teardown is one more check: every timer is destroyed, one more pass 3 ms later, nothing may fire
+    for (int t = 0; t < NT; t++) if (alive[t]) { alive[t] = false; md[t].en = false; delete tm[t]; tm[t] = nullptr; }
+    vnow += 3; act[NT] = NONE; pass(loop); delete loop; return c; };
   ex.explore(depth); return 0;
 }
 
@@ -284,7 +296,7 @@ static int pool_mode(const std::string &eng, size_t depth) {
     if (!gone) { m.push_back({P_CLEANUP, 0, 0}); m.push_back({P_DESTROY_POOL, 0, 0}); }      // the pool dies with timers pending: none of them may ever fire
     return m; };
   ex.run = [&](const std::vector<POp> &h, std::string &viol) {
-    Virt virt;
+    Virt virt; RunGuard guard;
     clock_reset(); Loop *loop = Loop::New(eng); auto cl = static_cast<CommonLoop *>(loop); if (!pooled) depool(cl);
     TimerPool *pool = new TimerPool(loop);
     struct T { TimerPool::TimerToken tok; bool persist; int iv; bool live; long long dl; long fires; int act; };
@@ -294,6 +306,7 @@ static int pool_mode(const std::string &eng, size_t depth) {
       bool persist = kind == 0;
       int idx = (int)ts.size(); ts.push_back(T{TimerPool::TimerToken(), persist, iv, true, vnow + iv, 0, act});
       auto cb = [&, idx] {
+        cb_guard(100000, viol);
         if (!viol.empty()) return; T &x = ts[idx];
         if (!x.live) { viol = pool ? "pool-callback-after-cancel-or-cleanup" : "pool-callback-after-the-pool-was-destroyed"; return; }
         if (vnow < x.dl) { viol = "pool-fired-early"; return; }
@@ -331,7 +344,8 @@ static int pool_mode(const std::string &eng, size_t depth) {
     // the pool's own cabinet: cells, free list, id counter (cancel and cleanup leave different shapes), number of cleanups so far
     c += "P" + (pool ? pool_cab_i(pool, 0) : "gone" + pool_shape) + "c" + std::to_string(std::min(cleanups, 2)) + "u" + std::to_string(vsub);
     if (vf_any_missing()) { c += "!"; for (auto &o : h) c += ex.show(o); }
-    delete pool; pass(loop); delete loop; return c; };
+    // teardown is one more check: the pool dies with whatever is pending, one more pass, nothing may fire
+    delete pool; pool = nullptr; for (auto &u : ts) u.live = false; vnow += 3; pass(loop); delete loop; return c; };
   ex.explore(depth); return 0;
 }
 
@@ -345,10 +359,10 @@ static int heap_mode(const std::string &eng, int n, int part, int nparts) {
   do { if ((int)(pi++ % (size_t)nparts) != part) continue;
     if (real_now_s() > deadline) { printf("@CAP heap lane %s n=%d part %d: deadline reached after %zu runs\n", eng.c_str(), n, part, runs); break; }
     for (int victim = 0; victim < n; victim++) for (int how = 0; how < 2; how++) {
-      clock_reset(); Loop *loop = Loop::New(eng); auto cl = static_cast<CommonLoop *>(loop); depool(cl);
+      g_cb_count = 0; clock_reset(); Loop *loop = Loop::New(eng); auto cl = static_cast<CommonLoop *>(loop); depool(cl);
       std::vector<TimerEvent *> tm(n); std::vector<long long> fired_at(n, -1); std::string viol; long long last_dl = -1;
       for (int i = 0; i < n; i++) { tm[i] = loop->newTimerEvent("h"); tm[i]->initialize(ms(perm[i]), Event::Mode::kOneshot);
-        tm[i]->setCallback([&, i] { if (i == victim) viol = "heap-removed-timer-fired"; if (fired_at[i] >= 0) viol = "heap-oneshot-fired-twice"; fired_at[i] = vnow;
+        tm[i]->setCallback([&, i] { cb_guard(100000, viol); if (i == victim) viol = "heap-removed-timer-fired"; if (fired_at[i] >= 0) viol = "heap-oneshot-fired-twice"; fired_at[i] = vnow;
           long long dl = 1000000 + perm[i]; if (vnow < dl) viol = "heap-fired-early"; if (dl < last_dl) viol = "heap-not-in-deadline-order"; last_dl = dl; });
         tm[i]->enable(); }
       if (how == 0) tm[victim]->disable(); else { delete tm[victim]; tm[victim] = nullptr; }
@@ -376,11 +390,11 @@ static int heapb_mode(const std::string &eng, int n, int part, int nparts, bool 
     for (int victim = 0; victim < n; victim++) for (int k = 1; k <= n; k++) for (int how = 0; how < 2; how++) for (int place = 0; place < 2; place++) {
       if (how == 1 && place == 0 && k > 1) continue;      // destroying at top level is the plain heap lane's subject; kept for k=1 only (after the first firings)
       const int NTICK = k + n + 3;                        // long enough for every timer, and the re-enabled victim, to fire again after the removal
-      clock_reset(); Loop *loop = Loop::New(eng); auto cl = static_cast<CommonLoop *>(loop); if (!pooled) depool(cl);
+      g_cb_count = 0; clock_reset(); Loop *loop = Loop::New(eng); auto cl = static_cast<CommonLoop *>(loop); if (!pooled) depool(cl);
       std::vector<TimerEvent *> tm(n); std::vector<bool> en(n, true); std::vector<long long> dl(n); std::string viol; long long last_dl = -1; int tick = 0; bool removed = false; int removed_at = -1;
       auto remove = [&] { removed = true; removed_at = tick; en[victim] = false; if (how == 0) tm[victim]->disable(); else { delete tm[victim]; tm[victim] = nullptr; } };
       for (int i = 0; i < n; i++) { tm[i] = loop->newTimerEvent("h"); tm[i]->initialize(ms(perm[i]), Event::Mode::kPersist);
-        tm[i]->setCallback([&, i] { if (!viol.empty()) return;
+        tm[i]->setCallback([&, i] { cb_guard(100000, viol); if (!viol.empty()) return;
           if (!en[i]) { viol = tm[i] ? "heapb-disabled-timer-fired" : "heapb-destroyed-timer-fired"; return; }
           if (vnow < dl[i]) { viol = "heapb-fired-early"; return; }
           for (int u = 0; u < n; u++) if (en[u] && dl[u] < dl[i]) { viol = "heapb-not-in-deadline-order"; return; }
@@ -411,10 +425,10 @@ static int late_mode(const std::string &eng, bool pooled) {
   size_t runs = 0, cbs = 0, bad = 0; bool capped = false;
   for (int mask = 1; mask < (1 << N) && !capped; mask++) for (int stagger = 0; stagger < 2; stagger++) for (long long L : {100LL, 1000LL, 100000LL}) for (int how = 0; how < 2; how++) {
     if (real_now_s() > deadline) { printf("@CAP late lane %s: deadline reached after %zu runs\n", eng.c_str(), runs); capped = true; break; }
-    clock_reset(); Loop *loop = Loop::New(eng); auto cl = static_cast<CommonLoop *>(loop); if (!pooled) depool(cl);
+    g_cb_count = 0; clock_reset(); Loop *loop = Loop::New(eng); auto cl = static_cast<CommonLoop *>(loop); if (!pooled) depool(cl);
     TimerEvent *tm[N]; bool en[N]; long long dl[N], t_en[N], fires[N]; std::string viol; long long last_dl = -1;
     for (int i = 0; i < N; i++) { en[i] = false; dl[i] = 0; fires[i] = 0; t_en[i] = 0; tm[i] = loop->newTimerEvent("l"); tm[i]->initialize(ms(IVS[i]), PERS[i] ? Event::Mode::kPersist : Event::Mode::kOneshot);
-      tm[i]->setCallback([&, i] { cbs++; if (!viol.empty()) return;
+      tm[i]->setCallback([&, i] { cbs++; cb_guard(2000000, viol); if (!viol.empty()) return;
         if (!en[i]) { viol = "late-disabled-timer-fired"; return; }
         if (vnow < dl[i]) { viol = "late-fired-early"; return; }
         for (int u = 0; u < N; u++) if (en[u] && dl[u] < dl[i]) { viol = "late-not-in-deadline-order"; return; }
